@@ -232,6 +232,11 @@ func (tps *TPS) OnMsg(msgBytes []byte, from uint16, _ bool) {
 			return
 		}
 
+		if len(sk.ys) != tps.pp.n {
+			tps.Logger.Warnf("Received share with %d components from %d, expected %d", len(sk.ys), from, tps.pp.n)
+			return
+		}
+
 		tps.sharesProcessed++
 		tps.shares[from] = *sk
 
@@ -251,9 +256,15 @@ func (tps *TPS) OnMsg(msgBytes []byte, from uint16, _ bool) {
 			return
 		}
 
-		if _, err := unmarshalPK(tps.pp.c, msgBytes[1:]); err != nil {
+		pk, err := unmarshalPK(tps.pp.c, msgBytes[1:])
+		if err != nil {
 			tps.Logger.Warnf("Public key %s of party %d is malformed: %v",
 				base64.StdEncoding.EncodeToString(msgBytes[1:]), from, err)
+			return
+		}
+
+		if len(pk.Y) != tps.pp.n {
+			tps.Logger.Warnf("Public key of party %d has %d components, expected %d", from, len(pk.Y), tps.pp.n)
 			return
 		}
 
